@@ -331,6 +331,34 @@ def rule_sum(points, weights, fspec):
     return tot
 
 
+def rule_abs(points, weights, fspec):
+    """sum_i |w_i| |f(x_i)|: the size of the summands of the quadrature sum = the unit in which its rounding error is measured (the
+    sum itself may cancel to 0)"""
+    outl = fspec["outl"]
+    tot = [Fraction(0)] * outl
+    for p, w in zip(points, weights):
+        fv = exact_eval(fspec, p)
+        wq = abs(fr(w))
+        for k in range(outl):
+            tot[k] += wq * abs(fv[k])
+    return tot
+
+
+def rule_both(points, weights, fspec):
+    """(sum_i w_i f(x_i), sum_i |w_i| |f(x_i)|) in one pass"""
+    outl = fspec["outl"]
+    tot = [Fraction(0)] * outl
+    ab = [Fraction(0)] * outl
+    for p, w in zip(points, weights):
+        fv = exact_eval(fspec, p)
+        wq = fr(w)
+        for k in range(outl):
+            t = wq * fv[k]
+            tot[k] += t
+            ab[k] += abs(t)
+    return tot, ab
+
+
 def local_component(gs, a, b, lv, start, end, fspec):
     """a fresh local grid of level lv on [start,end]: its (points, weights) and the own sum (nodal families) resp. the
     value a fresh grid object + fresh Function object integrate to (hierarchical-basis families)"""
@@ -341,12 +369,22 @@ def local_component(gs, a, b, lv, start, end, fspec):
     if not is_nodal(gs):
         with quiet():
             v = g.integrate(make_function(fspec), lv, start, end)
-        return [], [], vec(np.array(v, dtype=float), fspec["outl"])
+            g.setCurrentArea(start, end, lv)
+            gp = [tuple(float(c) for c in p) for p in g.getPoints()]
+        # hierarchical basis: no nodal weights; unit = volume * max |f| over the grid points (upper bound of the summand size)
+        vol = Fraction(1)
+        for x, y in zip(start, end):
+            vol *= fr(y) - fr(x)
+        outl = fspec["outl"]
+        mx = [max([abs(exact_eval(fspec, q)[k]) for q in gp] + [Fraction(0)]) for k in range(outl)]
+        val = vec(np.array(v, dtype=float), outl)
+        return [], [], val, [max(abs(vol) * mx[k], abs(val[k])) for k in range(outl)]
     g.setCurrentArea(start, end, lv)
     pts, ws = g.get_points_and_weights()
     pts = [tuple(float(c) for c in p) for p in pts]
     ws = [float(w) for w in ws]
-    return pts, ws, rule_sum(pts, ws, fspec)
+    tot, ab = rule_both(pts, ws, fspec)
+    return pts, ws, tot, ab
 
 
 def global_component(gs, a, b, coords, levels, fspec):
@@ -355,7 +393,8 @@ def global_component(gs, a, b, coords, levels, fspec):
     pts, ws = g.get_points_and_weights()
     pts = [tuple(float(c) for c in p) for p in pts]
     ws = [float(w) for w in ws]
-    return pts, ws, rule_sum(pts, ws, fspec)
+    tot, ab = rule_both(pts, ws, fspec)
+    return pts, ws, tot, ab
 
 
 def combine(coeffs, values, outl):
@@ -366,11 +405,12 @@ def combine(coeffs, values, outl):
     return tot
 
 
-def combine_scale(coeffs, values, outl):
+def combine_scale(coeffs, abs_sums, outl):
+    """sum_grids |c| * sum_i |w_i| |f(p_i)|  per output component"""
     tot = [Fraction(0)] * outl
-    for c, v in zip(coeffs, values):
+    for c, v in zip(coeffs, abs_sums):
         for k in range(outl):
-            tot[k] += abs(c * v[k])
+            tot[k] += abs(c) * v[k]
     return tot
 
 
@@ -771,7 +811,7 @@ def case_standard(ctx, drv, case):
         ctx.violation("scheme-of-request", tags, case, {"object": str(sorted(sch))[:300], "fresh": str(expected_scheme(case["lmin"], case["lmax"]))[:300]})
     rules = [local_component(gs, a, b, lv, a, b, fspec) for lv, _ in sch]
     indep = combine([c for _, c in sch], [r[2] for r in rules], outl)
-    scale = combine_scale([c for _, c in sch], [r[2] for r in rules], outl)
+    scale = combine_scale([c for _, c in sch], [r[3] for r in rules], outl)
     if not sclose(reported, indep, scale):
         ok = False
         ctx.violation("reported-vs-independent", tags, case, {"reported": fl(reported), "independent": fl(indep)})
@@ -818,7 +858,7 @@ def case_standard(ctx, drv, case):
         known = {lv: r for (lv, _), r in zip(sch, rules)}
         rules2 = [known[lv] if lv in known else local_component(gs, a, b, lv, a, b, fspec) for lv, _ in sch2]
         indep2 = combine([c for _, c in sch2], [r[2] for r in rules2], outl)
-        scale2 = combine_scale([c for _, c in sch2], [r[2] for r in rules2], outl)
+        scale2 = combine_scale([c for _, c in sch2], [r[3] for r in rules2], outl)
         if not sclose(res2, indep2, scale2):
             ok = False
             ctx.violation("reported-vs-independent", dict(tags, resumed=True), dict(case, second_lmax=lmax2),
@@ -916,9 +956,10 @@ def case_dimadaptive(ctx, drv, case):
             stops.setdefault(it, (rep, sch))
         if sib is not None:
             _, srep2, ssch2, _, _, _ = da_run(sib[0], case["max_points"])
-            svals = [local_component(gs, a, b, lv, a, b, sib[0]["f"])[2] for lv, _ in sib[2]]
+            scomp = [local_component(gs, a, b, lv, a, b, sib[0]["f"]) for lv, _ in sib[2]]
+            svals = [x[2] for x in scomp]
             sind = combine([c for _, c in sib[2]], svals, sib[0]["f"]["outl"])
-            sscale = combine_scale([c for _, c in sib[2]], svals, sib[0]["f"]["outl"])
+            sscale = combine_scale([c for _, c in sib[2]], [x[3] for x in scomp], sib[0]["f"]["outl"])
             if not sclose(sib[1], sind, sscale) or srep2 != sib[1] or ssch2 != sib[2]:
                 ok = False
                 ctx.violation("reported-vs-independent", dict(tags, sibling=True), case,
@@ -932,13 +973,16 @@ def case_dimadaptive(ctx, drv, case):
         return False
     # independent component values
     comp_val = {}
+    comp_abs = {}
     for it, (rep, sch) in stops.items():
         for lv, c in sch:
             if lv not in comp_val:
-                comp_val[lv] = local_component(gs, a, b, lv, a, b, fspec)[2]
+                lc = local_component(gs, a, b, lv, a, b, fspec)
+                comp_val[lv] = lc[2]
+                comp_abs[lv] = lc[3]
     for it, (rep, sch) in sorted(stops.items()):
         indep = combine([c for _, c in sch], [comp_val[lv] for lv, _ in sch], outl)
-        if not sclose(rep, indep, combine_scale([c for _, c in sch], [comp_val[lv] for lv, _ in sch], outl)):
+        if not sclose(rep, indep, combine_scale([c for _, c in sch], [comp_abs[lv] for lv, _ in sch], outl)):
             ok = False
             ctx.violation("reported-vs-independent", dict(tags, stop=it), dict(case, stop_iteration=it),
                           {"reported": fl(rep), "independent": fl(indep), "scheme": str(sch)[:300]})
@@ -954,7 +998,7 @@ def case_dimadaptive(ctx, drv, case):
             out = drv.ask("da-iter " + ";".join("%s:%d" % (",".join(map(str, lv)), c) for lv, c in sch))
             try:
                 mv = Fraction(out.split(" ")[1])
-                good = close(rep[k], mv)
+                good = sclose([rep[k]], [mv], [combine_scale([c for _, c in sch], [comp_abs[lv] for lv, _ in sch], outl)[k]])
             except Exception:
                 good = False
             if not good:
@@ -1160,31 +1204,33 @@ def independent_adaptive(s, case):
             for lv, c in sch:
                 mod, do = s.coarsen_grid(list(lv), standin)
                 if do:
-                    v = local_component(gs, a, b, mod, area.start, area.end, fspec)[2]
+                    lc = local_component(gs, a, b, mod, area.start, area.end, fspec)
+                    v = lc[2]
                     n += 1
                     for k in range(outl):
                         tot[k] += c * v[k]
-                        scale[k] += abs(c * v[k])
+                        scale[k] += abs(c) * lc[3][k]
     else:
         for lv, c in sch:
             coords, levels, _ = s.get_point_coord_for_each_dim(list(lv))
-            v = global_component(gs, a, b, coords, levels, fspec)[2]
+            gc = global_component(gs, a, b, coords, levels, fspec)
+            v = gc[2]
             n += 1
             for k in range(outl):
                 tot[k] += c * v[k]
-                scale[k] += abs(c * v[k])
+                scale[k] += abs(c) * gc[3][k]
     independent_adaptive.scale = scale
     return tot, n
 
 
-def replay_on_model(ctx, drv, s, case, variant, exact):
+def replay_on_model(ctx, drv, s, case, variant, exact, floor=None):
     """the recorded run (add/remove history + the partial results actually used) must drive the model to the same state after
     every operation"""
     outl = case["f"]["outl"]
     log = s.oplog
     ok = True
     for k in range(outl):
-        mag = [Fraction(0)]
+        mag = [Fraction(floor[k]) if floor is not None else Fraction(0)]   # never below the summand size sum |c| sum |w||f|
         if case["strategy"] == "extend-split":
             first = log[0]
             init_ids = sorted({s.aid(c[0]) for c in first["calls"]} | {i for i, _ in first["after"][2]})
@@ -1224,7 +1270,7 @@ def replay_on_model(ctx, drv, s, case, variant, exact):
                 try:
                     t = out.split(" ")
                     tol = 1e-12 if exact else TOL
-                    ref = sum(abs(cc * p[k]) for cc, p in contribs)
+                    ref = max(sum(abs(cc * p[k]) for cc, p in contribs), mag[0])
                     good = out == impl_s or (abs(e["after"][0][k] - Fraction(t[1])) <= tol * ref and
                                              abs(e["after"][1][k] - Fraction(t[3])) <= tol * ref)
                 except Exception:
@@ -1407,7 +1453,7 @@ def case_adaptive(ctx, drv, case, variant):
                                            "reevaluated_equals_independent": bool(vclose(repg, indf)),
                                            "plain_run_equals_independent": bool(vclose(repf, indf))},
                      {"reevaluate_False": fl(repf), "reevaluate_True": fl(repg), "independent": fl(indf)}, stop)
-            if not replay_on_model(ctx, drv, sg, fcase, variant, exact):
+            if not replay_on_model(ctx, drv, sg, fcase, variant, exact, floor=cur["scale"]):
                 ok = False
             if si == 0 and case.get("sibling_f"):
                 scase = dict(case, f=case["sibling_f"], stops=[case["stops"][min(1, len(case["stops"]) - 1)]])
@@ -1448,7 +1494,7 @@ def case_adaptive(ctx, drv, case, variant):
         except Exception:
             fail("exception", {"where": step, "resumed": True}, {"trace": traceback.format_exc()[-1500:]}, step)
     # ---- model: the whole chain (all evaluations, refinements, the final re-evaluation on the copy)
-    if not replay_on_model(ctx, drv, s, case, variant, exact):
+    if not replay_on_model(ctx, drv, s, case, variant, exact, floor=cur["scale"]):
         ok = False
     ctx.count("recorded_ops_" + strategy, len(s.oplog))
     if case.get("split_single_dim"):
